@@ -12,17 +12,10 @@ open Dawgs.C08 Dawgs.Grammar
 open Dawgs.Generated (Visitors.enterActions Visitors.exitActions Visitors.enterMethods Visitors.exitMethods Visitors.atoms
   Visitors.defaultFilters Visitors.baseVisitor Visitors.rootVisitor)
 
-/-- "tok:k" ↦ (0,k), "rule:r" ↦ (1,r), "anylit" ↦ (2,0), anything else (opaque) ↦ (3,0) -/
-def atomCode (s : String) : Nat × Nat :=
-  if s == "anylit" then (2, 0)
-  else if s.startsWith "tok:" then (0, ((s.drop 4).toString.toNat?).getD 0)
-  else if s.startsWith "rule:" then (1, ((s.drop 5).toString.toNat?).getD 0)
-  else (3, 0)
-
 /-- frontend.NewContext(): no filters -/
 def T : Tables :=
   { enter := Visitors.enterActions, exit := Visitors.exitActions, enterM := Visitors.enterMethods, exitM := Visitors.exitMethods,
-    atoms := Visitors.atoms.map atomCode, filters := [], base := Visitors.baseVisitor, root := Visitors.rootVisitor }
+    atoms := Generated.Visitors.atomCodes, filters := [], base := Visitors.baseVisitor, root := Visitors.rootVisitor }
 /-- frontend.DefaultCypherContext(): the five default filters -/
 def TD : Tables := { T with filters := Visitors.defaultFilters }
 
